@@ -3,11 +3,12 @@ import PB.Model.StopProto
 namespace PB.StopProto
 open PB.Gen.StopProto
 
-/-- The invariant. `C := g = 1 ∧ 1 ≤ spc` = "inside (or after, until the restart) a stop cycle that began
-    without stragglers". -/
+/-- The invariant (all conjuncts hold in every reachable state, for any number of cycles). -/
 def Inv (s : St) : Prop :=
   -- ranges
-  s.spc ≤ 8 ∧ s.fnpc ≤ 3 ∧ s.flag ≤ 1 ∧ s.ctrl ≤ 1 ∧ s.ctx ≤ 1 ∧ s.completed ≤ 1 ∧ s.closed ≤ 1 ∧ s.g ≤ 1 ∧ s.tmo ≤ 1 ∧
+  s.spc ≤ 8 ∧ s.fnpc ≤ 3 ∧ s.flag ≤ 1 ∧ s.ctrl ≤ 1 ∧ s.ctx ≤ 1 ∧ s.completed ≤ 1 ∧ s.closed ≤ 1 ∧ s.tmo ≤ 1 ∧
+  -- the module lock as used by the check: held by exactly the goroutine inside the locked section
+  s.lk = s.k1 + s.k2 + s.k3 + s.k4 + s.k5 + s.k6 + s.k7 + s.kd ∧ s.lk ≤ 1 ∧
   -- status vs. stopper pc
   (1 ≤ s.spc → s.spc ≤ 6 → s.status = statusStopping) ∧
   (7 ≤ s.spc → s.status = statusOffline) ∧
@@ -16,36 +17,34 @@ def Inv (s : St) : Prop :=
   (3 ≤ s.spc → s.flag = 1) ∧ (s.spc ≤ 2 → s.flag = 0) ∧
   -- the context is cancelled from the stopper's cancel until the restart
   (4 ≤ s.spc → s.ctx = 1) ∧
-  -- never-stale runs: single close
-  (s.everStale = 0 → s.k6 + s.closed ≤ 1 ∧ (s.completed = 0 → s.k6 = 0 ∧ s.closed = 0) ∧ s.dbl = 0 ∧ (1 ≤ s.spc → s.g = 1)) ∧
-  -- clean cycle: checkers past the flag read have read it in this cycle
-  (s.g = 1 → 1 ≤ s.spc → 0 < s.k1 + s.k2 + s.k3 + s.k4 + s.k5 + s.k6 → 3 ≤ s.spc) ∧
-  -- clean cycle: the control flag
-  (s.g = 1 → 1 ≤ s.spc → s.spc ≤ 4 → s.fnpc = 0 ∨ s.fnpc = 3) ∧
-  (s.g = 1 → 2 ≤ s.spc → s.spc ≤ 4 → s.ctrl = 1) ∧
-  (s.g = 1 → 5 ≤ s.spc → 1 ≤ s.fnpc ∧ (s.fnpc ≤ 2 → s.ctrl = 1) ∧ (s.fnpc = 3 → s.ctrl = 0)) ∧
-  -- clean cycle: what each read established stays true
-  (s.g = 1 → 1 ≤ s.spc → 0 < s.k2 + s.k3 + s.k4 + s.k5 + s.k6 → 5 ≤ s.spc ∧ s.fnpc = 3) ∧
-  (s.g = 1 → 1 ≤ s.spc → 0 < s.k3 + s.k4 + s.k5 + s.k6 → s.aW = 0) ∧
-  (s.g = 1 → 1 ≤ s.spc → 0 < s.k4 + s.k5 + s.k6 → s.aT = 0) ∧
-  (s.g = 1 → 1 ≤ s.spc → 0 < s.k5 + s.k6 → s.aM = 0) ∧
-  (s.g = 1 → 1 ≤ s.spc → s.completed = 1 → 5 ≤ s.spc ∧ s.fnpc = 3 ∧ s.aW = 0 ∧ s.aT = 0 ∧ s.aM = 0) ∧
-  (s.g = 1 → 1 ≤ s.spc → s.k6 + s.closed ≤ 1 ∧ (s.completed = 0 → s.k6 = 0 ∧ s.closed = 0)) ∧
-  -- clean cycle without timeout: the stopper got past its wait only through the closed channel
-  (s.g = 1 → s.tmo = 0 → 6 ≤ s.spc → s.closed = 1) ∧
-  -- clean cycle: no lost completion
-  (s.g = 1 → 5 ≤ s.spc → s.fnpc = 3 → s.aW + s.bW = 0 → s.aT + s.bT = 0 → s.aM + s.bM = 0 → s.completed = 0 →
-      1 ≤ s.k0 + s.k1 + s.k2 + s.k3 + s.k4 + s.k5) ∧
-  (s.g = 1 → 1 ≤ s.spc → s.completed = 1 → s.k6 = 1 ∨ s.closed = 1) ∧
-  -- a control function is executing only while starting or after the stopper started the stop routine
-  (s.fnpc = 1 → s.status = statusStarting ∨ 5 ≤ s.spc)
+  -- single close
+  s.k7 + s.closed ≤ 1 ∧ (s.completed = 0 → s.k7 = 0 ∧ s.closed = 0) ∧ s.dbl = 0 ∧
+  -- a control function goroutine is alive only while starting or after the stopper started the stop routine
+  (s.fnpc = 1 ∨ s.fnpc = 2 → s.status = statusStarting ∨ 5 ≤ s.spc) ∧
+  -- the control flag during the stopper's prefix
+  (1 ≤ s.spc → s.spc ≤ 4 → s.fnpc = 0 ∨ s.fnpc = 3) ∧
+  (2 ≤ s.spc → s.spc ≤ 4 → s.ctrl = 1) ∧
+  (5 ≤ s.spc → 1 ≤ s.fnpc ∧ (s.fnpc ≤ 2 → s.ctrl = 1) ∧ (s.fnpc = 3 → s.ctrl = 0)) ∧
+  -- what each read of the check in progress established stays true
+  (0 < s.k2 + s.k3 + s.k4 + s.k5 + s.k6 + s.k7 → 3 ≤ s.spc) ∧
+  (0 < s.k3 + s.k4 + s.k5 + s.k6 + s.k7 → 5 ≤ s.spc ∧ s.fnpc = 3) ∧
+  (0 < s.k4 + s.k5 + s.k6 + s.k7 → s.aW = 0) ∧
+  (0 < s.k5 + s.k6 + s.k7 → s.aT = 0) ∧
+  (0 < s.k6 + s.k7 → s.aM = 0) ∧
+  (1 ≤ s.spc → s.completed = 1 → 5 ≤ s.spc ∧ s.fnpc = 3 ∧ s.aW = 0 ∧ s.aT = 0 ∧ s.aM = 0) ∧
+  -- without timeout the stopper got past its wait only through the closed channel
+  (s.tmo = 0 → 6 ≤ s.spc → s.closed = 1) ∧
+  -- no lost completion
+  (5 ≤ s.spc → s.fnpc = 3 → s.aW + s.bW = 0 → s.aT + s.bT = 0 → s.aM + s.bM = 0 → s.completed = 0 →
+      1 ≤ s.k0 + s.kf + s.k1 + s.k2 + s.k3 + s.k4 + s.k5 + s.k6) ∧
+  (1 ≤ s.spc → s.completed = 1 → s.k7 = 1 ∨ s.closed = 1)
 
 theorem inv_init : Inv init := by
   unfold Inv init; simp
 
 macro "inv_step" hs:ident : tactic =>
   `(tactic| (unfold Inv at *; simp only [step] at $hs:ident; (repeat' split at $hs:ident) <;> cases $hs:ident <;>
-      (try simp only [St.inflight] at *) <;> (try dsimp only) <;> and_intros <;> grind (splits := 14)))
+      (try dsimp only) <;> and_intros <;> grind (splits := 14)))
 
 theorem inv_startBegin {s s'} (h : Inv s) (hs : step s .startBegin = some s') : Inv s' := by inv_step hs
 theorem inv_ctrlSet {s s'} (h : Inv s) (hs : step s .ctrlSet = some s') : Inv s' := by inv_step hs
@@ -68,6 +67,9 @@ theorem inv_workEnter {s s' c} (h : Inv s) (hs : step s (.workEnter c) = some s'
 theorem inv_gate {s s' c} (h : Inv s) (hs : step s (.gate c) = some s') : Inv s' := by inv_step hs
 theorem inv_dec {s s' k o} (h : Inv s) (hs : step s (.dec k o) = some s') : Inv s' := by
   cases k <;> cases o <;> inv_step hs
+theorem inv_cFast {s s' o} (h : Inv s) (hs : step s (.cFast o) = some s') : Inv s' := by
+  cases o <;> inv_step hs
+theorem inv_cLock {s s'} (h : Inv s) (hs : step s .cLock = some s') : Inv s' := by inv_step hs
 theorem inv_cFlag {s s' o} (h : Inv s) (hs : step s (.cFlag o) = some s') : Inv s' := by
   cases o <;> inv_step hs
 theorem inv_cCtrl {s s' o} (h : Inv s) (hs : step s (.cCtrl o) = some s') : Inv s' := by
@@ -81,6 +83,7 @@ theorem inv_cM {s s' o} (h : Inv s) (hs : step s (.cM o) = some s') : Inv s' := 
 theorem inv_cCas {s s' o} (h : Inv s) (hs : step s (.cCas o) = some s') : Inv s' := by
   cases o <;> inv_step hs
 theorem inv_cClose {s s'} (h : Inv s) (hs : step s .cClose = some s') : Inv s' := by inv_step hs
+theorem inv_cUnlock {s s'} (h : Inv s) (hs : step s .cUnlock = some s') : Inv s' := by inv_step hs
 
 theorem inv_step {s s' a} (h : Inv s) (hs : step s a = some s') : Inv s' := by
   cases a with
@@ -103,6 +106,8 @@ theorem inv_step {s s' a} (h : Inv s) (hs : step s a = some s') : Inv s' := by
   | workEnter c => exact inv_workEnter h hs
   | gate c => exact inv_gate h hs
   | dec k o => exact inv_dec h hs
+  | cFast o => exact inv_cFast h hs
+  | cLock => exact inv_cLock h hs
   | cFlag o => exact inv_cFlag h hs
   | cCtrl o => exact inv_cCtrl h hs
   | cW o => exact inv_cW h hs
@@ -110,6 +115,7 @@ theorem inv_step {s s' a} (h : Inv s) (hs : step s a = some s') : Inv s' := by
   | cM o => exact inv_cM h hs
   | cCas o => exact inv_cCas h hs
   | cClose => exact inv_cClose h hs
+  | cUnlock => exact inv_cUnlock h hs
 
 theorem inv_reach {s} (h : Reach s) : Inv s := by
   induction h with
@@ -118,10 +124,12 @@ theorem inv_reach {s} (h : Reach s) : Inv s := by
 
 /-! ## measure for the check steps -/
 
-def mu (s : St) : Nat := 7 * s.k0 + 6 * s.k1 + 5 * s.k2 + 4 * s.k3 + 3 * s.k4 + 2 * s.k5 + s.k6
+def mu (s : St) : Nat :=
+  10 * s.k0 + 9 * s.kf + 8 * s.k1 + 7 * s.k2 + 6 * s.k3 + 5 * s.k4 + 4 * s.k5 + 3 * s.k6 + 2 * s.k7 + s.kd
 
 theorem mu_decreases {s s' : St} {a : Act} (ha : a.isCheck = true) (hs : step s a = some s') : mu s' < mu s := by
   cases a with
+  | cFast o => cases o <;> simp only [step] at hs <;> (repeat' split at hs) <;> cases hs <;> simp only [mu] <;> omega
   | cFlag o => cases o <;> simp only [step] at hs <;> (repeat' split at hs) <;> cases hs <;> simp only [mu] <;> omega
   | cCtrl o => cases o <;> simp only [step] at hs <;> (repeat' split at hs) <;> cases hs <;> simp only [mu] <;> omega
   | cW o => cases o <;> simp only [step] at hs <;> (repeat' split at hs) <;> cases hs <;> simp only [mu] <;> omega
@@ -129,6 +137,8 @@ theorem mu_decreases {s s' : St} {a : Act} (ha : a.isCheck = true) (hs : step s 
   | cM o => cases o <;> simp only [step] at hs <;> (repeat' split at hs) <;> cases hs <;> simp only [mu] <;> omega
   | cCas o => cases o <;> simp only [step] at hs <;> (repeat' split at hs) <;> cases hs <;> simp only [mu] <;> omega
   | cClose => simp only [step] at hs; (repeat' split at hs) <;> cases hs <;> simp only [mu] <;> omega
+  | cLock => simp only [step] at hs; (repeat' split at hs) <;> cases hs <;> simp only [mu] <;> omega
+  | cUnlock => simp only [step] at hs; (repeat' split at hs) <;> cases hs <;> simp only [mu] <;> omega
   | _ => simp [Act.isCheck] at ha
 
 /-! ## several modules -/
@@ -146,6 +156,7 @@ theorem active_other {s s' : St} {a : Act} (hs : step s a = some s') (h1 : a ≠
   | cT o => cases o <;> simp only [step] at hs <;> (repeat' split at hs) <;> cases hs <;> simp [St.active]
   | cM o => cases o <;> simp only [step] at hs <;> (repeat' split at hs) <;> cases hs <;> simp [St.active]
   | cCas o => cases o <;> simp only [step] at hs <;> (repeat' split at hs) <;> cases hs <;> simp [St.active]
+  | cFast o => cases o <;> simp only [step] at hs <;> (repeat' split at hs) <;> cases hs <;> simp [St.active]
   | _ =>
     simp only [step] at hs
     (repeat' split at hs) <;> cases hs <;> simp only [St.active] <;> grind
